@@ -77,6 +77,10 @@ func (se *SpecEnv) eval(e SExpr, hint types.Type) Val {
 				sfail("bad integer %s", e.Val)
 			}
 			t := hint
+			if t == refType {
+				// object references are mathematical integers in the encoding
+				return Val{T: refType, L: []string{bi.String()}}
+			}
 			if t == nil || !isInteger(t) {
 				t = types.Typ[types.Int]
 			}
@@ -550,7 +554,13 @@ func (se *SpecEnv) index(x Val, ie SExpr) Val {
 		}
 	case *types.Map:
 		k := se.eval(ie, u.Key())
-		_, v := f.mapGet(se.state(), u, x.L[0], k.L[0])
+		has, v := f.mapGet(se.state(), u, x.L[0], k.L[0])
+		if se.qdepth == 0 {
+			// values stored in maps are valid Go values
+			if w := f.wf(se.state(), v); w != "true" {
+				f.c.assume(se.guard, implies(and(not(eq(x.L[0], "0")), has), w))
+			}
+		}
 		return v
 	case *types.Basic:
 		if isString(x.T) {
@@ -878,6 +888,20 @@ func (se *SpecEnv) call(e SCall, hint types.Type) Val {
 		k := se.eval(e.Args[1], mt.Key())
 		h, _ := f.mapGet(se.state(), mt, m.L[0], k.L[0])
 		return boolVal(and(not(eq(m.L[0], "0")), h))
+	case "unchangedobject": // every cell of the object x refers to is as in the pre-state
+		x := se.eval(e.Args[0], nil)
+		ref := x.L[0]
+		if _, isIface := x.T.Underlying().(*types.Interface); isIface {
+			ref = x.L[1]
+		}
+		if se.old == nil {
+			sfail("unchangedobject() needs a pre-state")
+		}
+		var cs []string
+		for _, so := range allClasses {
+			cs = append(cs, eq(sel(f.heap(se.cur, so), ref), sel(f.heap(se.old, so), ref)))
+		}
+		return boolVal(and(cs...))
 	case "ghostint": // ghostint("name", x): ghost integer attached to the object x refers to
 		lit, ok := e.Args[0].(SLit)
 		if !ok || lit.Kind != "string" {
